@@ -75,16 +75,16 @@ var (
 func Date(year int, month Month, day, hour, min, sec, nsec int, loc *Location) Time {
 	return stdtime.Date(year, month, day, hour, min, sec, nsec, loc)
 }
-func Unix(sec int64, nsec int64) Time  { return stdtime.Unix(sec, nsec) }
-func UnixMilli(msec int64) Time        { return stdtime.UnixMilli(msec) }
-func UnixMicro(usec int64) Time        { return stdtime.UnixMicro(usec) }
+func Unix(sec int64, nsec int64) Time          { return stdtime.Unix(sec, nsec) }
+func UnixMilli(msec int64) Time                { return stdtime.UnixMilli(msec) }
+func UnixMicro(usec int64) Time                { return stdtime.UnixMicro(usec) }
 func Parse(layout, value string) (Time, error) { return stdtime.Parse(layout, value) }
 func ParseInLocation(layout, value string, loc *Location) (Time, error) {
 	return stdtime.ParseInLocation(layout, value, loc)
 }
-func ParseDuration(s string) (Duration, error)     { return stdtime.ParseDuration(s) }
-func FixedZone(name string, offset int) *Location  { return stdtime.FixedZone(name, offset) }
-func LoadLocation(name string) (*Location, error)  { return stdtime.LoadLocation(name) }
+func ParseDuration(s string) (Duration, error)    { return stdtime.ParseDuration(s) }
+func FixedZone(name string, offset int) *Location { return stdtime.FixedZone(name, offset) }
+func LoadLocation(name string) (*Location, error) { return stdtime.LoadLocation(name) }
 func LoadLocationFromTZData(name string, data []byte) (*Location, error) {
 	return stdtime.LoadLocationFromTZData(name, data)
 }
